@@ -194,26 +194,94 @@ fn parse_side(ctx: &mut Ctx, arena: &Arena) {
     }
 }
 
+/// Long declared contents: every length 0..=80 and the counter boundaries, the first NUL at the start / middle /
+/// last byte / absent, plain ASCII or with a multi-byte character or an invalid byte next to the terminator.
+fn parse_long(ctx: &mut Ctx, arena: &Arena) {
+    ctx.bound("parse_long", "declared contents of every length 0..=80 and 255..257, 1023..1025, 4095..4097: first NUL at position {none, 0, len/2, len-2, len-1} x {ASCII, two-byte character right before the NUL, invalid byte before the NUL, invalid byte after the NUL, trailing space / newline before the NUL}; tag level, zero and marker padding");
+    for kind in KINDS.iter() {
+        for len in (0..=80usize).chain([255, 256, 257, 1023, 1024, 1025, 4095, 4096, 4097]) {
+            let mut nulpos: Vec<Option<usize>> = vec![None];
+            for p in [0usize, len / 2, len.saturating_sub(2), len.saturating_sub(1)] {
+                if p < len && !nulpos.contains(&Some(p)) {
+                    nulpos.push(Some(p));
+                }
+            }
+            for np in nulpos {
+                for variant in 0..6 {
+                    let mut content: Vec<u8> = (0..len).map(|i| b'a' + (i % 26) as u8).collect();
+                    if let Some(p) = np {
+                        content[p] = 0;
+                        match variant {
+                            1 if p >= 2 => {
+                                content[p - 2] = 0xC3;
+                                content[p - 1] = 0xA9;
+                            }
+                            2 if p >= 1 => content[p - 1] = 0xFF,
+                            3 if p + 1 < len => content[p + 1] = 0xFF,
+                            4 if p >= 1 => content[p - 1] = b' ',
+                            5 if p >= 1 => content[p - 1] = b'\n',
+                            0 => {}
+                            _ => continue,
+                        }
+                    } else if variant > 0 {
+                        continue;
+                    }
+                    for pad_zero in [true, false] {
+                        let img = tag_image(kind, &content);
+                        let mut padded = img.clone();
+                        let mut k = 0;
+                        while padded.len() % 8 != 0 {
+                            padded.push(if pad_zero { 0 } else { 0xF1 + k });
+                            k += 1;
+                        }
+                        if padded.len() == img.len() && !pad_zero {
+                            continue;
+                        }
+                        let describe = || J::obj().set("seam", "tag-long").set("kind", kind.name).set("content_len", len).set("first_nul", np.map(|p| J::from(p)).unwrap_or(J::Null)).set("variant", variant).set("padding", if pad_zero { "zero" } else { "marker" });
+                        ctx.leaf(describe, |ctx| {
+                            ctx.state_direct();
+                            ctx.nontrivial();
+                            ctx.under_fills(&format!("c17/o5/{}", kind.name), |ctx, fill| {
+                                arena.fill(fill);
+                                let p = arena.place_right(&padded);
+                                let slice: &[u8] = unsafe { std::slice::from_raw_parts(p, padded.len()) };
+                                let r = ctx.call("cast+text", || typed_text(kind, Generic::ref_from_slice(slice).unwrap()));
+                                judge(ctx, kind, &content, r, "tag");
+                            });
+                        });
+                    }
+                }
+            }
+        }
+    }
+}
+
 #[cfg(feature = "builder")]
 fn build_side(ctx: &mut Ctx) {
     use multiboot2::MaybeDynSized;
-    const SYMS: [&str; 4] = ["a", "\u{e9}", "\u{20ac}", "\0"];
-    let maxsym = if ctx.quick() { 5 } else { 8 };
-    ctx.bound("build", format!("all strings over {{a, e-acute (2 bytes), euro sign (3 bytes), NUL}} up to {} symbols plus one string of each length 0..=40, for CommandLineTag::new, BootLoaderNameTag::new and ModuleTag::new", maxsym));
+    const SYMS: [&str; 6] = ["a", "\u{e9}", "\u{20ac}", "\0", " ", "\n"];
+    let maxsym = if ctx.quick() { 4 } else { 6 };
+    ctx.bound("build", format!("all strings over {{a, e-acute (2 bytes), euro sign (3 bytes), NUL, space, newline}} up to {} symbols plus strings of every length 0..=300 and 1023..1025, 4095..4097, 65535..65537 (ASCII, and with a multi-byte last character), for CommandLineTag::new, BootLoaderNameTag::new and ModuleTag::new", maxsym));
     let mut texts: Vec<String> = Vec::new();
     for n in 0..=maxsym {
-        for code in 0..4usize.pow(n as u32) {
+        for code in 0..6usize.pow(n as u32) {
             let mut s = String::new();
             let mut c = code;
             for _ in 0..n {
-                s.push_str(SYMS[c % 4]);
-                c /= 4;
+                s.push_str(SYMS[c % 6]);
+                c /= 6;
             }
             texts.push(s);
         }
     }
-    for n in 0..=40 {
+    for n in (0..=300usize).chain([1023, 1024, 1025, 4095, 4096, 4097, 65535, 65536, 65537]) {
         texts.push((0..n).map(|i| (b'A' + (i % 26) as u8) as char).collect());
+        if n >= 2 {
+            // the same length in bytes, ending in a two-byte character
+            let mut t: String = (0..n - 2).map(|i| (b'a' + (i % 26) as u8) as char).collect();
+            t.push('\u{e9}');
+            texts.push(t);
+        }
     }
     for kind in KINDS.iter() {
         for text in &texts {
@@ -274,6 +342,7 @@ fn build_side(ctx: &mut Ctx) {
 fn run(ctx: &mut Ctx) {
     let arena = Arena::new(2);
     parse_side(ctx, &arena);
+    parse_long(ctx, &arena);
     if !ctx.uniform() {
         build_side(ctx);
     }
